@@ -19,7 +19,7 @@ class C18(Prop):
     COQ_IMPORTS = "From OP Require Import gen.Grammar."
     DESIGN_REF = "DESIGN.md §7 C18"
     LEVEL_TEXT = ("Coq theorems about executable recognisers for the instruction-line regex and the tag-operator-value "
-                  "parser: a finite Coq sweep proves the round trip for every operator spelling x every supported unit "
+                  "parser: a general round-trip theorem for every well-formed line, and a finite Coq sweep proves the round trip for every operator spelling x every supported unit "
                   "(regenerated from units.py), and the model is run against the real _parse_line / "
                   "_parse_tag_operator_value on well-formed renderings (where the Coq monitor demands exactly the "
                   "generating parts) and on near-misses. The general round-trip theorem over all well-formed parts is "
@@ -73,7 +73,7 @@ class C18(Prop):
             elif r < 0.8:
                 assign = rng.random() < 0.25
                 op = "=" if assign else rng.choice(cond_ops)
-                val = rng.choice(["5", "1.5", "-3", "0.25", "10"])
+                val = rng.choice(["5", "1.5", "-3", "0.25", "10", "+2", ".5", "5.", "1e3", "2E-2", "1e23", "7E3"])
                 unit = rng.choice(units + [None, None])
                 out.append(["tovwf", assign, rng.choice(TAGS), op, val, unit])
             else:
